@@ -590,7 +590,7 @@ fn raw_header(m: [u8; 2], ty: u8, len: u64) -> Vec<u8> {
 }
 
 fn tmp_file(tag: &str, data: &[u8]) -> (std::path::PathBuf, std::fs::File) {
-	let p = std::env::temp_dir().join(format!("gv-c19-{}-{}", std::process::id(), tag));
+	let p = std::path::Path::new(&crate::uni::scratch_base()).join(format!("gv-c19-{}-{}", std::process::id(), tag));
 	std::fs::write(&p, data).expect("write attachment file");
 	let f = std::fs::File::open(&p).expect("open attachment file");
 	(p, f)
